@@ -447,6 +447,49 @@ def exec_unrolled(ctx, st, items, env, cond):
     return outs
 
 
+def _break_form(st):
+    """True when every `break` of the loop is the last statement of the body of a top-level `if` of the loop body and the
+    loop has no `continue` - the form that unrolls into nested ifs"""
+    n_break = sum(1 for b in st.body for x in ast.walk(b) if isinstance(x, ast.Break))
+    if any(isinstance(x, ast.Continue) for b in st.body for x in ast.walk(b)):
+        return False
+    top = 0
+    for b in st.body:
+        if isinstance(b, ast.If) and b.body and isinstance(b.body[-1], ast.Break):
+            top += 1
+            if sum(1 for x in ast.walk(b) if isinstance(x, ast.Break)) != 1:
+                return False
+    return n_break == top
+
+
+def exec_unrolled_break(ctx, st, items, env, cond):
+    """for x in (i1, .., in): B; if c: break; B' [else: E]   ==   x = i1; B; if c: pass else: B'; x = i2; ... ; E"""
+    env = dict(env)
+    tag = "$it%d_" % (getattr(st, "lineno", 0))
+    for k, it in enumerate(items):
+        env[tag + str(k)] = it
+
+    def xform(stmts, cont):
+        for p_, s_ in enumerate(stmts):
+            if isinstance(s_, ast.If) and s_.body and isinstance(s_.body[-1], ast.Break):
+                new = ast.If(test=s_.test, body=s_.body[:-1] or [ast.Pass()], orelse=list(s_.orelse) + xform(stmts[p_ + 1:], cont))
+                ast.copy_location(new, s_)
+                return list(stmts[:p_]) + [new]
+        return list(stmts) + cont
+
+    def build(k):
+        if k == len(items):
+            return list(st.orelse)
+        head = ast.Assign(targets=[st.target], value=ast.Name(id=tag + str(k), ctx=ast.Load()))
+        ast.copy_location(head, st)
+        return [head] + xform(st.body, build(k + 1))
+
+    stmts = build(0) or [ast.Pass()]
+    for x in stmts:
+        ast.fix_missing_locations(x)
+    return exec_block(ctx, stmts, env, cond)
+
+
 def _normalise_do_while(st):
     """`while True: B; if c: break`  ->  `while not c: B`  (symbolically: the exit condition is the one tested after the
     body; the loop-carried values and the state at exit are the same)"""
@@ -461,8 +504,49 @@ def _normalise_do_while(st):
     return st
 
 
+def _normalise_counting_while(st, env):
+    """i = 0 ... `while i < N: B; i += 1`  ->  `for i in range(N): B`  when B neither assigns i nor leaves the loop early
+    (the counter's value after the loop is not modelled: it is made opaque by the caller)"""
+    if not (isinstance(st, ast.While) and not st.orelse and len(st.body) >= 2):
+        return st, None
+    t, last = st.test, st.body[-1]
+    if not (isinstance(t, ast.Compare) and len(t.ops) == 1 and isinstance(t.ops[0], ast.Lt) and isinstance(t.left, ast.Name)):
+        return st, None
+    i = t.left.id
+    if not (isinstance(last, ast.AugAssign) and isinstance(last.op, ast.Add) and isinstance(last.target, ast.Name) and last.target.id == i
+            and isinstance(last.value, ast.Constant) and last.value.value == 1 and type(last.value.value) is int):
+        return st, None
+    if env.get(i) != T.ZERO:
+        return st, None
+    body = st.body[:-1]
+    if i in assigned_names(body) or any(isinstance(x, (ast.Break, ast.Continue, ast.Return)) for b in body for x in ast.walk(b)):
+        return st, None
+    bound_names = {n.id for n in ast.walk(t.comparators[0]) if isinstance(n, ast.Name)}
+    if bound_names & set(assigned_names(body)):
+        return st, None
+    new = ast.For(target=ast.Name(id=i, ctx=ast.Store()), iter=ast.Call(func=ast.Name(id="range", ctx=ast.Load()), args=[t.comparators[0]], keywords=[]),
+                  body=body, orelse=[])
+    ast.copy_location(new, st)
+    ast.fix_missing_locations(new)
+    return new, i
+
+
 def exec_loop(ctx, st, env, cond):
     st = _normalise_do_while(st)
+    counter = None
+    if not getattr(ctx, "unroll_while", 0):
+        st, counter = _normalise_counting_while(st, env)
+    if counter is not None:
+        outs = exec_loop(ctx, st, env, cond)
+        for o in outs:
+            if o.kind == "fall" and counter in o.env:
+                o.env[counter] = ("opaque", "counter %s after its loop" % counter)
+        return outs
+    if ctx.unroll and isinstance(st, ast.For) and (st.orelse or any(isinstance(x, ast.Break) for b in st.body for x in ast.walk(b))) \
+            and _break_form(st):
+        items = iter_items(ev(ctx, st.iter, env))
+        if items is not None and len(items) <= ctx.unroll:
+            return exec_unrolled_break(ctx, st, items, env, cond)
     if ctx.unroll and isinstance(st, ast.For) and not st.orelse:
         items = iter_items(ev(ctx, st.iter, env))
         if items is not None and len(items) <= ctx.unroll and \
@@ -486,7 +570,7 @@ def exec_loop(ctx, st, env, cond):
     if isinstance(st, ast.For):
         it = ev(ctx, st.iter, env)
         tnames = assigned_names([ast.Assign(targets=[st.target], value=ast.Constant(value=0))])
-        header = ("for", it)
+        header = ("for", it, tuple(tnames))
     else:
         tnames = []
         it = None
@@ -551,7 +635,7 @@ def assign(ctx, target, v, env):
                 assign(ctx, e, x, env)
         else:
             for i, e in enumerate(target.elts):
-                assign(ctx, e, ("idx", v, T.num(i)), env)
+                assign(ctx, e, subscript(v, T.num(i)) if v[0] == "phi" else ("idx", v, T.num(i)), env)
     elif isinstance(target, ast.Subscript):
         b = target.value
         if isinstance(b, ast.Name):
@@ -693,21 +777,7 @@ def ev(ctx, node, env):
                 return (base[0],) + tuple(base[1:][slice(lo, hi, stp)])
             return T.call("slice", base, *parts)
         idx = ev(ctx, node.slice, env)
-        if base[0] in ("tuple", "list") and idx[0] == "num" and idx[1].denominator == 1:
-            i = int(idx[1])
-            if -len(base) + 1 <= i < len(base) - 1:
-                return base[1:][i]
-        if base[0] == "dict":
-            for k, v in base[1]:
-                if k == idx:
-                    return v
-            keys = {k for k, _ in base[1]}
-            if keys == {("bool", True), ("bool", False)} and idx[0] != "bool":
-                # table[bool(flag)] / table[predicate]: a two-way selection
-                d = dict(base[1])
-                c = idx[2] if (idx[0] == "call" and idx[1] == "bool" and len(idx) == 3) else idx
-                return merge_phi(c, d[("bool", True)], d[("bool", False)])
-        return ("idx", base, idx)
+        return subscript(base, idx)
     if isinstance(node, ast.Attribute):
         if isinstance(node.value, ast.Name) and node.value.id == "self":
             k = "self." + node.attr
@@ -1066,11 +1136,45 @@ def ev_call(ctx, node, env):
     return call_value(fv, args)
 
 
-def call_value(fv, args):
+def subscript(base, idx, _depth=4):
+    if base[0] in ("tuple", "list") and idx[0] == "num" and idx[1].denominator == 1:
+        i = int(idx[1])
+        if -len(base) + 1 <= i < len(base) - 1:
+            return base[1:][i]
+    if base[0] == "dict":
+        for k, v in base[1]:
+            if k == idx:
+                return v
+        keys = {k for k, _ in base[1]}
+        if keys == {("bool", True), ("bool", False)} and idx[0] != "bool":
+            # table[bool(flag)] / table[predicate]: a two-way selection
+            d = dict(base[1])
+            c = idx[2] if (idx[0] == "call" and idx[1] == "bool" and len(idx) == 3) else idx
+            return merge_phi(c, d[("bool", True)], d[("bool", False)])
+    if _depth > 0 and base[0] in ("tuple", "list", "dict") and idx[0] == "phi":
+        # literal[c ? i : j]  ==  c ? literal[i] : literal[j]
+        x, y = subscript(base, idx[2], _depth - 1), subscript(base, idx[3], _depth - 1)
+        if x[0] != "idx" and y[0] != "idx":
+            return merge_phi(idx[1], x, y)
+    if _depth > 0 and base[0] == "phi" and base[2][0] in ("tuple", "list", "dict") and base[3][0] in ("tuple", "list", "dict", "phi"):
+        x, y = subscript(base[2], idx, _depth - 1), subscript(base[3], idx, _depth - 1)
+        if x[0] != "idx" and y[0] != "idx":
+            return merge_phi(base[1], x, y)
+    return ("idx", base, idx)
+
+
+def call_value(fv, args, _depth=4):
     if fv == ("zerofn",):
         return T.ZERO
+    if fv[0] == "phi" and _depth > 0 and fv[2][0] in ("angle", "epoch", "phi") and fv[3][0] in ("angle", "epoch", "phi"):
+        return merge_phi(fv[1], call_value(fv[2], args, _depth - 1), call_value(fv[3], args, _depth - 1))
     if fv[0] == "angle" and not args:
-        return T.call("red", fv[1])
+        def push(t, d=6):
+            # red(c ? x : y) == c ? red(x) : red(y)
+            if t[0] == "phi" and d > 0:
+                return T.phi(t[1], push(t[2], d - 1), push(t[3], d - 1))
+            return T.call("red", t)
+        return push(fv[1])
     if fv[0] == "epoch" and not args:
         return fv[1]
     return T.call("apply", fv, *args)
